@@ -224,9 +224,14 @@ type c02ExpiryFault struct {
 	f  *c02Fault
 }
 
+// sel: operations of a worker (not of the harness goroutine, whose set-up requests such as an
+// unmount may revoke leases indexed under p) on p's own records - entry, lease, parent index,
+// cubbyhole; not the index of secrets leased with p.
 func (e *c02ExpiryFault) sel() func(kit.Event) bool {
-	p := e.p
-	return func(ev kit.Event) bool { return ev.Tag == "" && p.Keys.owns(ev.Key) }
+	p, harness := e.p, kit.GoID()
+	return func(ev kit.Event) bool {
+		return ev.Tag == "" && p.Keys.owns(ev.Key) && !strings.Contains(ev.Key, "sys/expire/token/") && kit.GoID() != harness
+	}
 }
 
 // suspendExpiryFaults / resumeExpiryFaults bracket a seal cycle: the lease restoration after an
@@ -381,6 +386,22 @@ func (x *c02Run) batchFamily(ns, nsTag string, all []string) {
 			lp.UsesUpper++
 		}
 		lp.UsesLower = lp.UsesUpper - 1 // conservative: at most one of them was refused
+	}
+	// a use-limited token spent to its last use while the queued revocation of the spent token fails
+	// once: the record stays in storage (marked) and the token must stay refused
+	if probe != nil {
+		sp := x.newParent(nsTag+"/spent-unreaped", "exhausted-unreaped", ns, map[string]any{"policies": all, "num_uses": 2})
+		sp.UsesMax, sp.UsesLower, sp.UsesUpper = 2, 1, 1 // the cubbyhole write of newParent
+		e := &c02ExpiryFault{p: sp, at: 1 + rng.Intn(10)}
+		e.f = x.arm(e.sel(), e.at, false)
+		x.expiry = append(x.expiry, e)
+		mark := x.v.Rec.Len()
+		resp, err := x.v.Do(vReq{Tag: "c02burn", Op: logical.ReadOperation, Path: probe.Abs + "data/burn", Token: sp.ID})
+		sp.UsesUpper++
+		if vOK(resp, err) && x.v.Rec.Len() == mark+1 {
+			sp.UsesLower++
+			r.Count("world_spent_tokens_with_failing_deferred_revocation", 1)
+		}
 	}
 	// short-lived parents: one reaped normally, one whose expiry job fails once so that the
 	// record is still in storage after the lease has run out
@@ -545,11 +566,18 @@ func (x *c02Run) nsRootSweep(stage string, sample int) {
 
 func TestVerif_C02_BatchParent(t *testing.T) {
 	seed := kit.Seed(2)
+	shard, shards := kit.Shard()
+	if shards > 1 && shard > 1 {
+		t.Skip("the enumeration is not sharded beyond the store kind: shards 0 and 1 run it")
+	}
 	r := kit.NewResult(t, "c02-batchparent", seed, "for each store kind x namespace {root, child, grand-child} x way of revoking a service token through the API (revoke, revoke-accessor, revoke-self, revoke-orphan, lease revoke synchronous, lease revoke queued) x each storage operation i of that revocation (all operations of the revoking request, and for the queued flow every worker operation on the token's own records; plus one run in which every operation from i on fails): a service token with a cubbyhole entry, a leased secret and a batch child is revoked while operation i fails once; then the parent itself, its batch child (read and write on recording mounts, namespace by header and by path) and, after the revocation was repeated without fault, the child again are judged by the reference authoriser (a batch token authorises only while its parent exists, is unexpired, unrevoked and within its use count) and compared with handler log, response, tagged writes and mount storage. Second family: parents with a 1 s TTL whose expiry job fails at worker operation i (every i) so that the record outlives the lease, judged after the harness has seen the clock pass the expiry. Third: use-limited parents (the product must refuse to let them create tokens). A case is non-trivial when the fault fired; distinct by (flow, namespace, store, failed operation and key class, parent record state)")
 	r.Exhaustive = true
 	defer r.Write(t)
 	flows := c02Flows()
 	for ti, tx := range []bool{false, true} {
+		if shards > 1 && ti != shard {
+			continue
+		}
 		v := vBoot(t, vOpts{Transactional: tx, Cache: tx})
 		x := &c02Run{t: t, r: r, v: v, rng: kit.NewRand(seed, 996+uint64(ti)), w: &c02World{NSs: []string{"", "ns1/", "ns1/sub/"}, Policies: map[string]*c02Policy{}}}
 		v.MustDo(vReq{Op: logical.UpdateOperation, Path: "sys/namespaces/ns1", Token: v.Root})
@@ -720,8 +748,7 @@ func TestVerif_C02_BatchParent(t *testing.T) {
 				e := exp{p: p, c: c, at: i, ns: ns}
 				if i > 0 {
 					p.Kind = "expired-unreaped"
-					pp := p
-					e.f = x.arm(func(ev kit.Event) bool { return ev.Tag == "" && pp.Keys.owns(ev.Key) }, i, i == nexp)
+					e.f = x.arm((&c02ExpiryFault{p: p}).sel(), i, i == nexp)
 				}
 				exps = append(exps, e)
 			}
@@ -763,6 +790,9 @@ func TestVerif_C02_BatchParent(t *testing.T) {
 		if r.NViolations() > 0 {
 			break
 		}
+	}
+	if shards > 1 {
+		return // one store kind per shard: the floors below are for both
 	}
 	r.Require("faults_fired", 150)
 	r.Require("fault_interrupted_parents_with_record_left_in_storage", 40)
@@ -815,10 +845,17 @@ func (x *c02Run) generateRoot(ns string, shares []string) (string, error) {
 
 func TestVerif_C02_NamespaceRoot(t *testing.T) {
 	seed := kit.Seed(2)
+	shard, shards := kit.Shard()
+	if shards > 1 && shard > 1 {
+		t.Skip("the matrix is not sharded beyond the store kind: shards 0 and 1 run it")
+	}
 	r := kit.NewResult(t, "c02-nsroot", seed, "a namespace tree root > {nsa (own shamir seal) > kid, nsb (own seal) > deep (own seal) > leaf, nsc} on both store kinds; in every sealable namespace the root generation ceremony is run through the API with that namespace's key shares; each resulting token, a child and an orphan child created by it with policies=[root], and a root-policy token of each plain namespace are presented with every namespace of the tree (header, path prefix, split, 'root' header) on recording secrets and auth mounts (read, write, list, delete, root-protected path) and on system / token / cubbyhole / identity paths; reference: such a token is root inside its own namespace subtree and has no authority anywhere else (no handler, non-error, data or storage change). A request is non-trivial when it was refused outside the subtree or handled inside it; distinct by (token, relation of the request namespace, op, path)")
 	r.Exhaustive = true
 	defer r.Write(t)
 	for ti, tx := range []bool{false, true} {
+		if (shards > 1 && ti != shard) || !kit.WantCase(fmt.Sprintf("nsroot:%v", tx)) {
+			continue
+		}
 		v := vBoot(t, vOpts{Transactional: tx, Cache: !tx})
 		x := &c02Run{t: t, r: r, v: v, rng: kit.NewRand(seed, 994+uint64(ti)), caseID: fmt.Sprintf("nsroot:%v", tx), w: &c02World{Policies: map[string]*c02Policy{}}}
 		type nsd struct {
@@ -887,6 +924,9 @@ func TestVerif_C02_NamespaceRoot(t *testing.T) {
 		if r.NViolations() > 0 {
 			break
 		}
+	}
+	if shards > 1 {
+		return
 	}
 	r.Require("root_generation_ceremonies", 6)
 	r.Require("nsroot_outside_subtree:deny", 1500)
